@@ -41,6 +41,7 @@ fn build_suite(name: &str, params: &Value) -> Box<dyn Suite + Send + Sync> {
             let nums = |v: &Value| -> Vec<usize> { v.as_array().map(|a| a.iter().map(|x| x.as_u64().unwrap() as usize).collect()).unwrap_or_default() };
             Box::new(Delims { kinds: strs(&params["kinds"]), lens: nums(&params["lens"]), mbs: strs(&params["mbs"]), positions: nums(&params["positions"]), terms: strs(&params["terms"]) })
         }
+        "mlshapes" => Box::new(MlShapes { max: params["max"].as_u64().unwrap_or(u64::MAX) }),
         "dirnest" => Box::new(DirNest { count: params["count"].as_u64().unwrap_or(1000), seed: params["seed"].as_u64().unwrap_or(0) }),
         "programs" => {
             // params: path, variants: [[deco, spacing, {opts}]...], alts: [[spacing, mode]...]
